@@ -116,6 +116,12 @@ def renderAll : List (Item × Bytes) → Bytes
   | [] => []
   | (it, trail) :: rest => it.render ++ (trail ++ renderAll rest)
 
+/-- items that are reported as errors (unknown key, value given to a flag) -/
+def isErrItem : Item → Bool
+  | .unknown _ _ _ => true
+  | .flagArg _ _ _ _ => true
+  | _ => false
+
 def isRawAssign : Item → Bool
   | .assign _ _ (.raw _) => true
   | _ => false
